@@ -456,6 +456,10 @@ def _pat_upper(pat, scrut, cname):
         if k == "Binding" and pat.get("sub"):
             return _pat_upper(pat["sub"], scrut, cname)
         return None
+    if scrut.get("k") == "Binary" and scrut.get("op") in ("Lt", "Le") and pat.get("k") == "Const" and pat.get("val") is True \
+            and pp(strip(scrut["l"])).lstrip("*") == cname.lstrip("*") and const_eval(scrut["r"]) is not None:
+        # `match (.., c < K) { (.., true) => c += 1, .. }`: the arm runs only when the comparison held
+        return const_eval(scrut["r"]) - (1 if scrut["op"] == "Lt" else 0)
     if scrut.get("k") == "Tuple" and pat.get("k") == "Leaf":
         for sp in pat.get("subs", []):
             i = int(sp["idx"])
